@@ -494,6 +494,8 @@ func c08Run(c Cell, env *Env) CellResult {
 				if !seenSig[v.Signature] {
 					seenSig[v.Signature] = true
 					v.Choices = r.Choices()
+					mustReproduce(v.Signature, v.Choices, body, check)
+				mustReproduce(v.Signature, v.Choices, body, check)
 					v.Extra, _ = json.Marshal(pi)
 					v.Detail += fmt.Sprintf("\n  program: A=%v B=%v C=%v batch=%s", opNames(cc.A), opNames(p.b), opNames(p.c), cc.Batch)
 					res.Violations = append(res.Violations, v)
